@@ -5,6 +5,7 @@ used, or unwrap/expect-ed.  Discards (type-resolved, over MIR):
   D-call   Result::<T,E>::{ok, unwrap_or, unwrap_or_default, unwrap_or_else, is_ok, is_err, is_ok_and, map_or, iter, into_iter, and}
   D-drop   a call's Result is never used (`let _ = f()` / statement position)
   D-match  the Result is only tested (discriminant / Ok payload read), its Err payload is never read
+  D-log    the Err payload is read only to be formatted into a log line (log-and-continue)
 Each site is AUDITED (tables/e3_allow.json, keyed by function + idiom + E, with multiplicity and reason) or a finding.
 """
 from collections import defaultdict
@@ -92,7 +93,7 @@ def discard_sites(P, reach):
             if uses is None:
                 uses = collect_uses(body)
             verdict = classify(body, uses, t["d"][0])
-            if verdict in ("D-drop", "D-match"):
+            if verdict in ("D-drop", "D-match", "D-log"):
                 out.append({"fn": fn, "idiom": verdict, "E": E, "line": t["l"], "callee": callee, "x": t.get("x", 0)})
     return out, tracked
 
@@ -200,9 +201,69 @@ def collect_uses(body):
     return uses
 
 
+def err_payload_only_logged(body, local):
+    """True iff every read of (local as Err).0 only feeds formatting machinery whose result goes to log::__private_api::log
+    (the error is reported to the log and then forgotten: the function carries on as if the step had succeeded)."""
+    from prog import def_sites
+    # locals holding the payload or a reference to it
+    holders = set()
+    for blk in body["blocks"]:
+        if blk["cl"]:
+            continue
+        for st in blk["s"]:
+            rv = st["rv"]
+            places = [operand_place(o) for o in rv.get("o", [])] + ([rv["p"]] if "p" in rv else [])
+            for p in places:
+                if p and p[0] == local and any(e == "d:Err" for e in p[1:]) and len(st["d"]) == 1:
+                    holders.add(st["d"][0])
+    if not holders:
+        return False
+    # forward closure through moves/refs/aggregates/calls; collect terminal callees
+    seen = set(holders)
+    work = list(holders)
+    sinks = []
+    escaped = False
+    while work:
+        l = work.pop()
+        for blk in body["blocks"]:
+            if blk["cl"]:
+                continue
+            for st in blk["s"]:
+                rv = st["rv"]
+                srcs = [operand_local(o) for o in rv.get("o", [])] + ([rv["p"][0]] if "p" in rv else [])
+                if l in srcs:
+                    d = st["d"]
+                    if d[0] == 0:
+                        escaped = True
+                    elif d[0] not in seen:
+                        seen.add(d[0])
+                        work.append(d[0])
+            t = blk["t"]
+            if t["t"] == "call" and any(operand_local(a) == l for a in t["a"]):
+                k = t["f"].get("k")
+                callee = (k.get("res") or k.get("fn")) if k else "?"
+                if callee.startswith("core::fmt::") or callee.startswith("alloc::fmt::format") or callee.endswith("::must_use") \
+                        or callee.endswith("::deref") or callee.endswith("::as_ref") or callee.endswith("::to_string") or callee.endswith("Display::fmt"):
+                    if len(t["d"]) == 1 and t["d"][0] not in seen:
+                        if t["d"][0] == 0:
+                            escaped = True
+                        seen.add(t["d"][0])
+                        work.append(t["d"][0])
+                elif callee.startswith("log::__private_api::log"):
+                    sinks.append("log")
+                else:
+                    sinks.append(callee)
+            elif t["t"] == "sw" and operand_local(t["o"]) == l:
+                sinks.append("switch")
+    return bool(sinks) and not escaped and all(x == "log" for x in sinks)
+
+
 def classify(body, uses, local, depth=0):
     us = uses.get(local, [])
     kinds = {k for k, _ in us}
+    if "err_payload" in kinds and not (kinds & {"arg", "ret", "agg", "other"}):
+        if err_payload_only_logged(body, local):
+            return "D-log"
     if kinds & {"arg", "ret", "agg", "other", "err_payload"}:
         return "used"
     # follow moves and refs (a `match &r` borrows first)
@@ -211,8 +272,8 @@ def classify(body, uses, local, depth=0):
             v = classify(body, uses, extra, depth + 1)
             if v == "used":
                 return "used"
-            if v == "D-match":
-                return "D-match"
+            if v in ("D-match", "D-log"):
+                return v
         elif k in ("move", "ref") and extra is None:
             return "used"
     if "discr" in kinds or "ok_payload" in kinds:
